@@ -175,8 +175,8 @@ def r9_1(ctx):
                         continue
                     if isinstance(a, ast.Constant):
                         continue
-                    if norm(a) in ("self.server", "mbox_name"):
-                        continue  # server handle; mbox_name in _compute_status_for_list comes from the mailboxes table
+                    if norm(a) == "self.server" or (fi.name == "_compute_status_for_list" and isinstance(a, ast.Name) and a.id == fi.node.args.args[1].arg):
+                        continue  # server handle; the name parameter of _compute_status_for_list comes from the mailboxes table (R9.2)
                     ctx.bad("R9.1", fi.module, fi.qual, norm(c, 100), f"a mailbox operation is called with `{norm(a)}`, which is not one of the sanitised command name attributes", c.lineno)
     ctx.floor("R9.1", n_calls, 12, "handler calls of name-taking operations")
     ctx.call_sites += n_calls
@@ -243,7 +243,11 @@ def r9_2(ctx):
     cs = p.func("client.Authenticated._compute_status_for_list")
     par = [a.arg for a in cs.node.args.args]
     callers = [c for c in calls_in(dl.node) if call_name(c) == "_compute_status_for_list"]
-    if callers and all(isinstance(c.args[0], ast.Name) and c.args[0].id == "mbox_name" for c in callers):
+    from .common import pm_of
+    pdl = pm_of(p, dl)
+    fed = pdl.find("for mbox_name, attributes, child_info in results:\n    ...")
+    okn = fed is not None and callers and all(isinstance(c.args[0], ast.Name) and c.args[0].id == pdl.name("mbox_name") for c in callers)
+    if okn:
         ctx.ok("R9.2", where(dl), "LIST-STATUS opens only names that came back from the mailboxes table")
     else:
         ctx.bad("R9.2", dl.module, dl.qual, "_compute_status_for_list(mbox_name, ...)", "LIST-STATUS is no longer fed with table names only", dl.node.lineno)
